@@ -210,10 +210,37 @@ func (s imageSite) lift(v ssa.Value) (ssa.Value, int64, int) {
 }
 
 // liftBuf: the slice / array object behind a buffer pointer, followed through parameters along the chain.
+// returnedBy: the frame hands the buffer b (a local allocation) back to its caller as a result
+func returnedBy(b ssa.Value) bool {
+	ins, ok := b.(ssa.Instruction)
+	if !ok || ins.Parent() == nil {
+		return false
+	}
+	if _, isMk := b.(*ssa.MakeSlice); !isMk {
+		return false
+	}
+	for _, r := range returnsFlat(ins.Parent()) {
+		for _, rv := range r.Results {
+			if bufBase(stripConv(rv)) == b {
+				return true
+			}
+		}
+	}
+	return false
+}
+
 func (s imageSite) liftBuf(v ssa.Value) ssa.Value {
 	level := 0
 	for {
 		b := bufBase(stripConv(v))
+		if level < len(s.chain) && returnedBy(b) {
+			// built in a helper and returned: in the caller it is the call's result
+			if cv, ok := s.chain[level].(ssa.Value); ok {
+				v = cv
+				level++
+				continue
+			}
+		}
 		p, isP := b.(*ssa.Parameter)
 		if !isP || level >= len(s.chain) {
 			return b
@@ -239,9 +266,11 @@ func (w *World) imageSites() []imageSite {
 			return
 		}
 		// the frame that owns the output buffer is the dealer's frame: stop there even if the point is a parameter
-		if _, bufIsParam := s.liftBuf(s.call.Call.Args[0]).(*ssa.Parameter); !bufIsParam {
-			out = append(out, s)
-			return
+		if lb := s.liftBuf(s.call.Call.Args[0]); !returnedBy(lb) {
+			if _, bufIsParam := lb.(*ssa.Parameter); !bufIsParam {
+				out = append(out, s)
+				return
+			}
 		}
 		fn := p.Parent()
 		callers := w.callersOfCached(fn)
@@ -429,6 +458,9 @@ func (w *World) ruleDealingShape(rule string, ownIdx *types.Var) {
 								if strings.HasPrefix(f.Expr, lhs+" == ") && strings.HasSuffix(f.Expr, "."+ownIdx.Name()) {
 									okRcp = true
 								}
+								if strings.HasSuffix(f.Expr, " == "+lhs) && strings.HasSuffix(strings.TrimSuffix(f.Expr, " == "+lhs), "."+ownIdx.Name()) {
+									okRcp = true
+								}
 							}
 							if !okRcp {
 								why = "the share buffer is read back by " + com.StaticCallee().Name() + " without the guard (point-1) == own index: " + strings.Join(want, ", ")
@@ -600,11 +632,40 @@ func (w *World) rulePolynomialGenerator(rule string, F *ssa.Function) {
 			return
 		}
 		ia, ok := stripConv(c.Call.Args[0]).(*ssa.IndexAddr)
-		if !ok || stripConv(ia.X) != ssa.Value(mk) {
+		if !ok {
 			return
 		}
 		callee := c.Call.StaticCallee()
+		// a sub-slice view a[L:H] walked entirely (`inner := a[1:degree]; for i := range inner`): slots L..H-1
+		if sl, isSl := stripConv(ia.X).(*ssa.Slice); isSl && stripConv(sl.X) == ssa.Value(mk) && sl.Low != nil && sl.High != nil {
+			la, ha := affineOf(sl.Low), affineOf(sl.High)
+			ixa := affineOf(ia.Index)
+			lk, lIsC := la.base.(*ssa.Const)
+			iph, isPhi := ixa.base.(*ssa.Phi)
+			if lIsC && isPhi {
+				l0, _ := constInt64(lk.Value)
+				l0 += la.c
+				if first, lbase, loff, okS := inductionSpan(iph); okS && first+ixa.c == 0 && loff+ixa.c == -1 && lenCallOf(lbase, ia.X) {
+					covers := l0 <= 1 && ha.base == ssa.Value(kp) && ha.c >= 0
+					if !covers {
+						hasMid = fmt.Sprintf("the middle coefficients written are the view `%s`: not all of 1..degree-1", render(ia.X))
+					} else if !w.anySampler(callee) {
+						hasMid = "middle coefficients are written by " + callee.Name() + ", which is not a sampler of field elements"
+					} else {
+						hasMid = "ok"
+					}
+				}
+			}
+			return
+		}
+		if stripConv(ia.X) != ssa.Value(mk) {
+			return
+		}
 		ix := affineOf(ia.Index)
+		// len(a) of the slice just made is degree+1
+		if lenCallOf(ix.base, mk) {
+			ix = affine{kp, ix.c + la.c}
+		}
 		switch b := ix.base.(type) {
 		case *ssa.Const:
 			n, _ := constInt64(b.Value)
